@@ -20,6 +20,7 @@ import (
 	"path/filepath"
 	"sort"
 	"sync"
+	"syscall"
 	"time"
 
 	"github.com/akrylysov/pogreb/fs"
@@ -387,8 +388,15 @@ func (s *FS) Remove(name string) error {
 }
 
 // Rename implements fs.FileSystem.
+// NameMax is the longest file name (last path element) the file system accepts, as on the usual
+// disk file systems.
+const NameMax = 255
+
 func (s *FS) Rename(oldpath, newpath string) error {
 	oldpath, newpath = clean(oldpath), clean(newpath)
+	if len(filepath.Base(newpath)) > NameMax {
+		return &os.LinkError{Op: "rename", Old: oldpath, New: newpath, Err: syscall.ENAMETOOLONG}
+	}
 	s.mu.Lock()
 	defer s.mu.Unlock()
 	in := s.dir[oldpath]
